@@ -260,6 +260,15 @@ def flags(ctx: Ctx):
     for cname, h in (("_WeightedCounts", "weighted"), ("_UnweightedCounts", "unweighted")):
         e = expand(ctx.repo, ctx.repo.cls(SM, cname), "subtotal_values", stop=lambda m: m.name == "base_values")
         ctx.check_expr("flag-table.stripe", f"{SM}::{cname}.subtotal_values", e, "SumSubtotals.subtotal_values(self.base_values, self._rows_dimension)")
+        # "in a response that carries valid counts for a numeric measure a difference's count is NaN instead" holds for a
+        # strand as for a slice: the subtotal values of the 1-D counts must depend on whether valid counts stand in for the
+        # counts (a NaN flag, as in the matrix layer).  Full expansion down to the cube: no such dependence = violation.
+        full = expand(ctx.repo, ctx.repo.cls(SM, cname), "subtotal_values", stop=lambda m: m.name == "base_values")
+        t_full = u(full)
+        dep = any(w in t_full for w in ("diff_nan", "diff_rows_nan", "valid_counts", "valid_count"))
+        ctx.ob("flag-table.stripe.valid-counts", f"{SM}::{cname}.subtotal_values", "depends on the presence of valid counts" if dep else "signed sum of the counts whether or not they are valid counts",
+               "NaN for a difference when valid counts stand in for the counts (as _BaseCubeCounts.diff_nans in the matrix layer)", dep,
+               "the difference of two VALID counts (respondents with a numeric answer) is not a count of anybody: the slice reports NaN, the strand must too")
 
 
 def nan_classes(ctx: Ctx):
